@@ -5,7 +5,7 @@ from vlib import *
 
 TRACE_CFG = ['SPECIFICATION TraceSpec', 'CONSTRAINT Progress', 'POSTCONDITION TraceAccepted', 'CHECK_DEADLOCK FALSE']
 ALL_OPS = ["Add", "Sub", "Mul", "MulRelin", "MulThenAdd", "MulRelinThenAdd", "Rescale", "RescaleTo", "Relinearize", "Rotate", "Conjugate", "ScaleUp", "DropLevel", "SetScale"]
-ROTS = [1, 2, 3, -1, 5, 8, 9, -11]
+ROTS = [1, 2, 3, -1, 5, 8, 9, -11, 0]
 U = 1048576
 
 
